@@ -7,6 +7,7 @@ checks that justify the finiteness live in the rules (see `comparison_only`).  N
 or executed by Python: method bodies are walked by this module.
 """
 import ast
+import re as _re
 import itertools
 import sys
 from typing import Any, Dict, List, Optional
@@ -1648,6 +1649,12 @@ class Interp:
                 for a in args:
                     if isinstance(a, Opaque):
                         raise Uninterpretable(f"{type(o).__name__}.{name} on {a!r}")
+            if isinstance(o, _re.Pattern):
+                # interpreted functions handed to a compiled pattern (sub with a replacement function)
+                cw = lambda a: ((lambda *xs: self.apply(a, list(xs), {}, func, depth))  # noqa: E731
+                                if isinstance(a, tuple) and a and a[0] in ("lambda", "closure", "bound") else a)
+                args = [cw(a) for a in args]
+                kwargs = {k: cw(v) for k, v in kwargs.items()}
             try:
                 return getattr(o, name)(*args, **kwargs)
             except TypeError as ex:
